@@ -214,9 +214,10 @@ def run(chk):
         if case['kind'] == 'stack':
             chk.count('source:' + case['source']); chk.count('sink:' + case['sink'])
         if v:
-            if 'alive' in v and case['kind'] == 'stack':
+            if common.timing_verdict(v) and case['kind'] == 'stack':
+                # a verdict that depends on real time (threads, 50 ms polls, timeouts) counts only if it reproduces twice more
                 again = [guarded(case) for _ in range(2)]
-                if not all(x and 'alive' in x for x in again):
-                    chk.count('flaky-liveness-not-counted'); continue
+                if not all(again):
+                    chk.count('timing-verdict-not-reproduced'); continue
             chk.violation('C15:%s:%s' % (case['kind'], v[:25]), v, case)
     chk.lean(['Dicom.Props.C15'])
